@@ -63,6 +63,7 @@ def run(chk):
         tid += 1
     sw, res = chk.generate(sweep.c02_routes_task, tasks)
     chk.extra['route_results_judged'] = sum(r['events'] for r in res)
+    sh += common.stage_wide(chk, 'decl')
     chk.validate('TraceBDD', 'TraceBDD.cfg', sh)
     chk.validate('TraceSweep', 'TraceSweep.cfg', sw)
 
